@@ -67,7 +67,7 @@ def run(ctx, chk):
             pre = H.get(calls[0].callee, [])
             pts = set(typestate.DOMAIN)
             for a in pre:
-                if a.get("param") == 0:
+                if a.get("param") == 0 and a.get("entry", True):
                     ap = PA.atom_points(a)
                     if ap is not None:
                         pts &= ap
